@@ -27,6 +27,11 @@ func main() {
 		case "child-requester":
 			childRequester(os.Args[2:])
 			return
+		case "items":
+			// c19 items <from> <to> <step>: run the tree items from, from+step, ... < to in this process, print the layout
+			// of the families and the violation classes with their counts (to = 0: only the layout)
+			debugItems(os.Args[2:])
+			return
 		case "item":
 			// c19 item <index> [race] [repeat]: run all schedules of one tree item in this process and print the verdicts
 			debugItem(os.Args[2:])
@@ -41,6 +46,9 @@ func main() {
 		"context cancelled in mid-flight, one in 25 is a wide tree of 10-23 pooled children). Stages whose Plan() returns nil (nothing to execute) are " +
 		"enumerated at every position of every tree of up to 3 stages (a seeded sample of the 4-stage trees in the quick tier) next to ok/failing/panicking stages, " +
 		"and generated as families: a nil-plan stage (leaf or with next stages, inline or pooled, first/last/middle) among 2-5 slower, failing or panicking siblings. " +
+		"Stages that panic while the pipeline registers them (Identifier() panics; the stage is handed over as a typed nil pointer, the real Identifier() dereferences it) are " +
+		"enumerated at every position of every tree of up to 3 stages (root, only child, first/last sibling, grandchild; inline and pooled parents) and generated as families: " +
+		"such a stage at depth 0-3 below inline/pooled ancestors among 1-5 succeeding, failing, plan-less siblings that are registered and unfinished when it panics. " +
 		"A stage object built again (NextStages() of its parent called twice) is a separate instance sN#k with its own gate and facts. Non-trivial = at least two stages were registered " +
 		"with the pipeline; distinct = (canonical tree, observed completion order incl. callback position). " +
 		"requesting side: a case = (root | intermediate, 2-5 targets, response of every target {ok (a real leaf payload), real error, not found}, " +
@@ -61,6 +69,8 @@ func main() {
 	c.Set("systematic_trees", len(plan.sys))
 	c.Set("systematic_trees_with_nil_plan_stage", len(plan.nilSys))
 	c.Set("random_families_around_nil_plan_stage", plan.nNil)
+	c.Set("systematic_trees_with_stage_panicking_while_registered", len(plan.regSys))
+	c.Set("random_families_around_stage_panicking_while_registered", plan.nReg)
 
 	type job struct {
 		name string
@@ -248,6 +258,9 @@ func main() {
 		"nil_plan_stages_completed", "nil_plan_stage_pooled", "nil_plan_stage_inline", "nil_plan_stage_inner_node", "nil_plan_stage_leaf",
 		"nil_plan_stage_root", "nil_plan_stage_first_sibling", "nil_plan_stage_last_sibling", "nil_plan_stage_middle_sibling",
 		"nil_plan_stage_completed_while_non_ancestor_stage_unfinished", "nil_plan_stage_completed_before_another_stage_failed",
+		"reg_panic_identifier_panics", "reg_panic_typed_nil_stage", "reg_panic_root_stage", "reg_panic_child_stage", "reg_panic_grandchild_or_deeper",
+		"reg_panic_on_callers_goroutine", "reg_panic_on_callers_goroutine_while_other_stage_unfinished", "reg_panic_on_callers_goroutine_then_completed_with_error",
+		"reg_panic_below_pooled_stage",
 		"leaf_requests", "leaf_requests_with_failing_shard", "leaf_responses",
 		"leaf_requests_with_shard_without_family_in_range", "leaf_requests_with_failing_shard_and_shard_without_family",
 		"leaf_shard_without_family_planned_while_other_shards_parked",
@@ -334,5 +347,49 @@ func debugItem(args []string) {
 		for _, m := range a.res.Inconclusive {
 			fmt.Println("INCONCLUSIVE", m)
 		}
+	}
+}
+
+func debugItems(args []string) {
+	var from, to, step int
+	fmt.Sscan(args[0], &from)
+	fmt.Sscan(args[1], &to)
+	fmt.Sscan(args[2], &step)
+	seed := int64(1)
+	if s := os.Getenv("VERIF_SEED"); s != "" {
+		fmt.Sscan(s, &seed)
+	}
+	p := newTreePlan(seed, os.Getenv("VERIF_TIER") != "thorough")
+	prev := ""
+	for i := 0; i < p.items(); i++ {
+		if k, _ := p.kind(i); k != prev {
+			fmt.Printf("family %s starts at item %d\n", k, i)
+			prev = k
+		}
+	}
+	fmt.Printf("items: %d\n", p.items())
+	a := newAgg()
+	var list []int
+	for i := from; i < to && i < p.items(); i += step {
+		list = append(list, i)
+	}
+	slots := make(chan string, 8)
+	for w := 0; w < 8; w++ {
+		slots <- fmt.Sprintf("w%d", w)
+	}
+	core.Parallel(len(list), 8, func(k int) {
+		slot := <-slots
+		p.runItem(list[k], slot, false, a, func(string) {})
+		slots <- slot
+	})
+	fmt.Printf("ran %d items, evals=%d\n", len(list), a.res.Evals)
+	for cl, v := range a.res.Viol {
+		fmt.Printf("CLASS %s x%d: %.300s\n", cl, v.Count, v.Msg)
+	}
+	for _, m := range a.res.Inconclusive {
+		fmt.Println("INCONCLUSIVE", m)
+	}
+	for _, k := range []string{"reg_panic_stages", "reg_panic_on_callers_goroutine", "reg_panic_on_callers_goroutine_then_completed_with_error", "reg_panic_below_pooled_stage", "no_callback", "callback", "watchdog_cases"} {
+		fmt.Printf("  %s = %d\n", k, a.res.Counters[k])
 	}
 }
